@@ -436,3 +436,91 @@ def when_family(version, max_cases, max_len):
                         else:
                             body = ["  while $c"] + _ind(lines, 2)
                         yield (ncase, lens, ctx, haselse), V2_HELPERS + "flow main\n" + "\n".join(body) + "\n"
+
+
+# ---------------------------------------------------------------- Colang 1.0: checkpoints (`label`) and `goto`
+# All sequences of atoms up to a length; a checkpoint is defined at most once and every goto refers to a
+# checkpoint that is defined somewhere in the flow (before or after it) - anything else is refused by the loader.
+# Several gotos may refer to one checkpoint, from either side, directly or out of / into a nested block.
+GOTO_ATOMS = ("X", "La", "Lb", "Ga", "Gb", "IGa", "IGb", "ILa")
+GOTO_CONTEXTS = ("top", "while", "if_else", "when_body")
+_GOTO_TEXT = {
+    "La": ["label a"], "Lb": ["checkpoint b"], "Ga": ["goto a"], "Gb": ["go to b"],
+    "IGa": ["if $c", "  goto a"], "IGb": ["if $c", "  goto b"], "ILa": ["if $c", "  label a"],
+}
+
+
+def _goto_seq_ok(s):
+    la = s.count("La") + s.count("ILa")
+    lb = s.count("Lb")
+    if la > 1 or lb > 1 or la + lb == 0:
+        return False
+    if la == 0 and ("Ga" in s or "IGa" in s):
+        return False
+    if lb == 0 and ("Gb" in s or "IGb" in s):
+        return False
+    return True
+
+
+def goto_sequences(length):
+    return [s for s in itertools.product(GOTO_ATOMS, repeat=length) if _goto_seq_ok(s)]
+
+
+def render_goto_v1(seq, ctx):
+    lines = []
+    for i, a in enumerate(seq):
+        if a == "X":
+            lines.append(f"bot x{i}" if i % 2 == 0 else f"user x{i}")
+        else:
+            lines += _GOTO_TEXT[a]
+    if ctx == "top":
+        body = ["  user start"] + _ind(lines, 1) + ["  bot end"]
+    elif ctx == "while":
+        body = ["  user start", "  while $c"] + _ind(lines, 2) + ["  bot end"]
+    elif ctx == "if_else":
+        body = ["  user start", "  if $c", "    bot t", "  else"] + _ind(lines, 2) + ["  bot end"]
+    elif ctx == "when_body":
+        body = ["  when user a"] + _ind(lines, 2) + ["  else when user b", "    bot c"]
+    else:
+        raise ValueError(ctx)
+    return "define flow t\n" + "\n".join(body) + "\n"
+
+
+def n_gotos(seq):
+    return sum(1 for a in seq if a in ("Ga", "Gb", "IGa", "IGb"))
+
+
+# ---------------------------------------------------------------- Colang 2.x: `when` whose case is an or-group x control-flow bodies
+# `_expand_when_stmt_element` emits the case body once per or-group of the case and the else body once per
+# case (labels of the statement are then defined several times, the table keeps the last one): every block
+# of the control grammar up to a node bound is placed in such a case / else body, at top level and in a loop.
+WHEN_OR_SPECS = ("E0() or E1()", "f or g", "(E0() and E1()) or g", "E0() or E1() or h")
+WHEN_OR_FORMS = ((False, False), (False, True), (True, False), (True, True))   # (second case, else)
+
+
+def when_or_family(max_body):
+    """yields (key, source)"""
+    for ctx in ("top", "loop"):
+        for n in range(1, max_body + 1):
+            blocks = V2_BLOCKS(n, ctx == "loop")
+            for bi, b in enumerate(blocks):
+                for si, spec in enumerate(WHEN_OR_SPECS):
+                    for two, els in WHEN_OR_FORMS:
+                        for where in (("case", "else") if els else ("case",)):
+                            c = _Ctr()
+                            c.ev = 10
+                            body = []
+                            render_v2_block(b, 0, c, body)
+                            simple = ["match W0()"]
+                            lines = [f"when {spec}"] + _ind(body if where == "case" else simple, 1)
+                            if two:
+                                lines += ["or when W9() or g"] + _ind(simple, 1)
+                            if els:
+                                lines += [_else_kw(b) if where == "else" else "else"] + _ind(
+                                    body if where == "else" else simple, 1)
+                            if ctx == "top":
+                                text = _ind(lines, 1) + ["  match Z()"]
+                            else:
+                                text = ["  while $c"] + _ind(lines, 2) + ["    match Z()"]
+                            yield ((ctx, n, bi, si, int(two), int(els), where),
+                                   V2_HELPERS + "flow main\n" + "\n".join(text) + "\n")
